@@ -1,58 +1,21 @@
 /-
 Line-protocol driver: one request per line on stdin, one response per line on stdout.
-`<cmd> <T> args…` with T ∈ {q (Rat), f (Float)}.  Mathlib-free, compiled as `driver`.
+`<cmd> args…`; commands are registered by the modules under SpiceEv/Cmd.  Mathlib-free.
 -/
 import SpiceEv.Wire
-import SpiceEv.Model.Curve
+import SpiceEv.Cmd.Curve
 open SpiceEv
 
-section
-variable {α : Type} [Add α] [Sub α] [Mul α] [Div α] [LT α] [LE α]
-  [DecidableLT α] [DecidableLE α] [OfNat α 0] [OfNat α 1] [Wire α]
-
-def rNum (x : α) : String := Wire.render x
-def rPoint (p : α × α) : String := rNum p.1 ++ " " ++ rNum p.2
-def rCurve (c : Curve α) : String := renderList rPoint c.points ++ " " ++ rNum c.maxPower
-def pPoint : P (α × α) := do let a ← P.num α; let b ← P.num α; pure (a, b)
-
-/-- `curve T <n> pts… L pre post <k> socs…` →
-    `new=<curve> | clamped=<curve> | lookups on both | boundaries on both` -/
-def cmdCurve : P String := do
-  let pts ← P.list (pPoint (α := α))
-  let L ← P.num α; let pre ← P.num α; let post ← P.num α
-  let socs ← P.list (P.num α)
-  let c := Curve.new pts
-  let cl := c.bind (fun c => c.clamped L pre post)
-  let look (c : Py (Curve α)) : String :=
-    match c with
-    | .error _ => "-"
-    | .ok c => " ".intercalate (socs.map (fun s => renderPy rNum (c.powerFromSoc s)))
-  let bnd (c : Py (Curve α)) : String :=
-    match c with
-    | .error _ => "-"
-    | .ok c => " ".intercalate (socs.map (fun s =>
-        let b := c.sectionBoundary s; s!"{b.1},{b.2}"))
-  pure (s!"{renderPy rCurve c} | {renderPy rCurve cl} | {look c} | {look cl} | {bnd c} | {bnd cl}")
-end
-
-def dispatchT (cmd : String) (α : Type) [Add α] [Sub α] [Mul α] [Div α] [LT α] [LE α]
-    [DecidableLT α] [DecidableLE α] [OfNat α 0] [OfNat α 1] [Wire α] : Option (P String) :=
-  match cmd with
-  | "curve" => some (cmdCurve (α := α))
-  | _ => none
+def allHandlers : List (String × Handler) :=
+  Cmd.Curve.handlers
 
 def handle (line : String) : String :=
   match (line.splitOn " ").filter (· ≠ "") with
-  | cmd :: t :: rest =>
-    let p : Option (P String) :=
-      if t == "q" then dispatchT cmd Rat else if t == "f" then dispatchT cmd Float else none
-    match p with
-    | none => "bad-cmd"
-    | some p => match (p <* P.eof).run rest with
-      | some (out, _) => out
-      | none => "bad-args"
   | [] => ""
-  | _ => "bad-line"
+  | cmd :: rest =>
+    match allHandlers.lookup cmd with
+    | none => "bad-cmd"
+    | some h => (h rest).getD "bad-args"
 
 partial def loop (h : IO.FS.Stream) (out : IO.FS.Stream) : IO Unit := do
   let line ← h.getLine
